@@ -843,3 +843,25 @@ func (p *Prog) forwardingWrapperOf(f *ssa.Function) (*ssa.Function, map[int]int)
 	}
 	return w, pos
 }
+
+// recvVarName: the name under which fn refers to its receiver — the first parameter of a method, or for a closure the
+// captured variable of pointer-to-struct type (lock keys are rendered with that name). "" when there is none.
+func recvVarName(fn *ssa.Function) string {
+	if fn == nil {
+		return ""
+	}
+	if fn.Signature.Recv() != nil && len(fn.Params) > 0 {
+		return fn.Params[0].Name()
+	}
+	for _, fv := range fn.FreeVars {
+		if n := namedOf(fv.Type()); n != nil {
+			if _, isStruct := n.Underlying().(*types.Struct); isStruct {
+				return fv.Name()
+			}
+		}
+	}
+	if len(fn.Params) > 0 {
+		return fn.Params[0].Name()
+	}
+	return ""
+}
